@@ -45,6 +45,9 @@ WITNESS_RANGE_BOUND = 'def bound(n: int) -> int:\n\tc = n\n\tt = 0\n\tfor i in r
 # committed witness of the open finding enumerate-index-redeclared (vf.gen.typed keeps enumerate index names unique)
 WITNESS_ENUMERATE_TWICE = 'def twice(n: int) -> int:\n\txs = [n, 2]\n\tt = 0\n\tfor i, x in enumerate(xs):\n\t\tt = t + i * x\n\tfor i, y in enumerate(xs):\n\t\tt = t + i + y\n\treturn t\n'
 
+# committed witness of the open finding keyword-arguments-emitted-positionally (the generators never pass arguments by keyword)
+WITNESS_KEYWORD_ARGS = 'def g(a: int, b: int = 2, c: int = 3) -> int:\n\treturn a * 100 + b * 10 + c\n\n\ndef kw(n: int) -> int:\n\treturn g(n, c=5)\n'
+
 _SESSION = None
 
 
@@ -240,6 +243,10 @@ def classify(v: dict) -> str | None:
 	if v['case'].get('kind') == 'witness-enumerate-twice':
 		# Open finding 'enumerate-index-redeclared': matched only on the committed witness and on that diagnostic
 		return 'enumerate-index-redeclared' if v['kind'] == 'cpp-compile-error' and re.search(r"redeclaration of .int i.", v['detail'] + str(v['case'].get('diagnostics', ''))) else None
+	if v['case'].get('kind') == 'witness-keyword-arguments':
+		# Open finding 'keyword-arguments-emitted-positionally': matched only on the committed witness and on the value that dropping the
+		# labels yields there (g(n, c=5) read as g(n, 5): b = 5, c = 3)
+		return 'keyword-arguments-emitted-positionally' if re.match(r"kw\((-?\d+),\): CPython -> 'ok\\t-?\d+', C\+\+ -> 'ok\\t(-?\d+)'", d0 := v['detail']) and int(re.match(r"kw\((-?\d+),\).*C\+\+ -> 'ok\\t(-?\d+)'", d0).group(2)) == int(re.match(r"kw\((-?\d+),\)", d0).group(1)) * 100 + 53 else None
 	if v['case'].get('kind') == 'witness-range-bound':
 		return 'range-bound-reevaluated-each-iteration' if re.match(r"bound\(\d+,\): CPython -> 'ok\\t\d+', C\+\+ -> 'ok\\t51'", d) else None
 	m = re.search(r'expression: (.*?)\]', d)
@@ -289,6 +296,8 @@ def shard(ctx: Ctx, acc: Acc) -> None:
 				uid += 1
 		if ctx.shard == 0:
 			from vf.gen.typed import Entry, Program, INT
+			units.append(Unit(uid, Program(WITNESS_KEYWORD_ARGS, [Entry('kw', [('n', INT)], INT, [[1], [4]])], {}, {}, set(), []), 'witness-keyword-arguments'))
+			uid += 1
 			units.append(Unit(uid, Program(WITNESS_ENUMERATE_TWICE, [Entry('twice', [('n', INT)], INT, [[3]])], {}, {}, set(), []), 'witness-enumerate-twice'))
 			uid += 1
 			units.append(Unit(uid, Program(WITNESS_RANGE_BOUND, [Entry('bound', [('n', INT)], INT, [[3], [7]])], {}, {}, set(), []), 'witness-range-bound'))
